@@ -194,9 +194,8 @@ def gen_case(rng):
             if head.startswith(("dct", "cnt")):
                 extras = [e for e in extras if e in ("boom", "nosuch")] if rng.random() < 0.7 else extras
         else:
-            if rng.random() < 0.1:
-                target = join(cwd, "missing.txt") if rng.random() < 0.5 else "elsewhere/x.txt"
-                target_root = rjoin(root, target) if not target.startswith("elsewhere") else target
+            if rng.random() < 0.08:
+                target_root = rjoin(root, join(cwd, "missing.txt"))       # a reference to a key nobody declares
             else:
                 target_root = rjoin(root, rng.choice(placed))
             path = rel_path(rng, rjoin(root, cwd), target_root)
@@ -614,10 +613,12 @@ def oracle(case, impl):
                 if runs and new.count(k) != 1:
                     out.append(("not-evaluated", "%s: first read of %s evaluated it %d times (log %r)" % (what, k, new.count(k), new), step))
             # ---- state update of the reference: whatever is not ready is evaluated, dependencies first (a key in the error
-            # state may or may not be tried again - it fails again either way)
+            # state may or may not be tried again - it fails again either way; the log tells which)
             def sim_read(x, depth=0):
                 if x not in declared or state[x] == "ready" or depth > len(declared):
                     return
+                if state[x] == "error" and x not in new:
+                    return      # not tried again (or tried again without getting as far as its transformation)
                 for d in deps[x]:
                     sim_read(d, depth + 1)
                 state[x] = "ready" if direct.get(x) is not None else "error"
@@ -759,7 +760,62 @@ def minimise(case, cls):
             c[fld] = val
             if fails(c):
                 case = c
+    for f in (relocate, renumber):
+        c = f(case)
+        if c is not None and c != case and fails(c):
+            case = c
     return case
+
+
+def renumber(case):
+    """canonical tags / file stems: the n-th remaining recipe is r<n>, f<n>, g<n>"""
+    import re
+    order = []
+    for *_, it, k in items_of(case):
+        for m in re.finditer(r"(?<![A-Za-z0-9_])[rfg](\d+)(?![A-Za-z0-9_])", it["query"] + " " + (it.get("filename") or "")):
+            if m.group(1) not in order:
+                order.append(m.group(1))
+    ren = {o: str(i) for i, o in enumerate(order)}
+
+    def sub(t):
+        return re.sub(r"(?<![A-Za-z0-9_])([rfg])(\d+)(?![A-Za-z0-9_])", lambda m: m.group(1) + ren.get(m.group(2), m.group(2)), t)
+    c = json.loads(json.dumps(case))
+    for f in c["files"]:
+        for sec in f["sections"]:
+            for it in sec["items"]:
+                it["query"] = sub(it["query"])
+                if it.get("filename") is not None:
+                    it["filename"] = sub(it["filename"])
+    c["ops"] = [[o[0]] + [sub(a) if isinstance(a, str) else a for a in o[1:]] for o in c["ops"]]
+    return c
+
+
+def relocate(case):
+    """recipes file at depth 0 and, for a single section, the local section - only when no recipe refers to another key"""
+    if any("/-/" in it["query"] for *_, it, k in items_of(case)) or len(case["files"]) != 1:
+        return None
+    c = json.loads(json.dumps(case))
+    old_keys = [k for *_, k in items_of(case)]
+    old_dirs = {item_cwd(f, sec) for f, sec, *_ in items_of(case)}
+    c["files"][0]["key"] = "recipes.yaml"
+    if len(c["files"][0]["sections"]) == 1:
+        c["files"][0]["sections"][0]["name"] = "RECIPES"
+    new_keys = [k for *_, k in items_of(c)]
+    ren = dict(zip(old_keys, new_keys))
+    for (f, sec, *_), (f2, sec2, *_) in zip(items_of(case), items_of(c)):
+        ren[item_cwd(f, sec)] = item_cwd(f2, sec2)
+    ops = []
+    for o in c["ops"]:
+        if len(o) > 1 and isinstance(o[1], str):
+            if o[1] in ren:
+                o = [o[0], ren[o[1]]] + o[2:]
+            elif o[1].endswith("missing.txt"):
+                o = [o[0], "missing.txt"] + o[2:]
+            else:
+                o = [o[0], ""] + o[2:]
+        ops.append(o)
+    c["ops"] = ops
+    return c
 
 
 def case_sig(case):
